@@ -268,8 +268,16 @@ def check_fan(case):
         lo, hi = (case['speeds'][0], case['speeds'][1]) if name == 'left' else (case['speeds'][-2], case['speeds'][-1])
         room = min(v - lo, hi - v)
         if gen:
-            hx = min(0.1 * room * t, 0.02 * width * t)
+            # the general solver returns linear interpolants on its own grid: a stencil must span several of its cells (else it differentiates
+            # one straight segment) and must fit between the point and the fan edges; fans only a few cells wide are below the documented
+            # resolution and give no point (thorough tier: 4-cell and 17-cell fans produced residuals of 3e-4 .. 0.8)
+            cell = (P['xmax'] - P['xmin']) / (P['num_x_pts'] - 1)
+            hx = max(2.0 * cell, 0.02 * width * t)
+            if room * t < 3.0 * hx:
+                o.label('fan-below-grid-resolution-skip')
+                continue
             ht = min(0.1 * room / (abs(v) + width) * t, 0.02 * t)
+            ht = max(ht, hx / (abs(v) + width))
             tol = 2e-4
         else:
             hx = min(0.2 * room * t, 1e-3 * width * t)
